@@ -186,11 +186,13 @@ theorem C07_terminates (coins : List Coin) (outs : List TxOut) (rate : Int) (cs 
   apply loop_terminates
   simp [prefixInit]
 
-/-- "insufficient funds" (wallet source, `makeInputSource(coins)`) ⇒ all offered coins together cannot cover the
-    outputs plus the fee required for them. -/
-theorem C07_insufficient (coins : List Coin) (outs : List TxOut) (rate : Int) (cs : ChangeSource)
+/-- "insufficient funds" ⇒ all offered coins together cannot cover the outputs plus the fee required for them — for
+    EVERY input source that offers `coins` (hands out prefixes of them truthfully and stops short of the target only
+    when nothing is left); `makeInputSource` and `constantInputSource` are such sources. -/
+theorem C07_insufficient_any_source {σ : Type} {src : Source σ} {Inv : σ → Prop} {coins : List Coin} {s0 : σ}
+    (hoff : Offers src Inv coins) (h0 : Inv s0) (outs : List TxOut) (rate : Int) (cs : ChangeSource) (fuel : Nat)
     (hr : 1000 ≤ rate) (ho : 0 ≤ sumOuts outs)
-    (h : authorPrefix coins outs rate cs = .err .insufficient) :
+    (h : newUnsigned src s0 outs rate cs fuel = .err .insufficient) :
     sumCoins coins < sumOuts outs + SizesGen.FeeForSerializeSize rate (SizesGen.EstimateVirtualSize
       (count .p2pkh coins) (count .p2tr coins) (count .p2wpkh coins) (count .nested coins) outs cs.scriptSize) := by
   have hP := count_nonneg .p2pkh coins
@@ -211,8 +213,21 @@ theorem C07_insufficient (coins : List Coin) (outs : List TxOut) (rate : Int) (c
   · subst hne
     have := feeAll_pos true hr outs cs []
     simp only [sumCoins]; omega
-  · exact insufficient_of_first_le C07_gen_est C07_gen_fee C07_gen_sum hr outs cs coins _
+  · exact loop_insufficient_offers hoff C07_gen_est C07_gen_fee C07_gen_sum hr outs cs fuel s0 _ [] h0
       (first_le_feeAll C07_gen_est C07_gen_fee hr outs cs coins hne (Or.inl C07_gen_init)) h
+
+theorem C07_wallet_sources_offer (coins : List Coin) :
+    Offers prefixSource (PInv coins) coins ∧ PInv coins (prefixInit coins) ∧
+    Offers constSource (fun s => s = coins) coins :=
+  ⟨prefixSource_offers coins, pinv_init coins, constSource_offers coins⟩
+
+/-- "insufficient funds" from the wallet's own source `makeInputSource(coins)` ⇒ the coins cannot cover outputs + fee -/
+theorem C07_insufficient (coins : List Coin) (outs : List TxOut) (rate : Int) (cs : ChangeSource)
+    (hr : 1000 ≤ rate) (ho : 0 ≤ sumOuts outs)
+    (h : authorPrefix coins outs rate cs = .err .insufficient) :
+    sumCoins coins < sumOuts outs + SizesGen.FeeForSerializeSize rate (SizesGen.EstimateVirtualSize
+      (count .p2pkh coins) (count .p2tr coins) (count .p2wpkh coins) (count .nested coins) outs cs.scriptSize) :=
+  C07_insufficient_any_source (prefixSource_offers coins) (pinv_init coins) outs rate cs _ hr ho h
 
 /-! ## the two defects this property found in the tree before the fixes, as theorems about the PRE-FIX arithmetic
 (`specCfg false (0,0,1,0)`: output-count var-int from `len(txOuts)`, first estimate with one P2WPKH input).  They do
